@@ -1,6 +1,7 @@
 """C01 — every stored texture snapshot is a valid texture, after any update history."""
 from __future__ import annotations
 
+import contextlib
 import hashlib
 import os
 import subprocess
@@ -9,6 +10,7 @@ import sys
 import numpy as np
 
 from .. import common as C
+from .. import hard
 from .. import impl
 from .. import robust
 from .. import solver
@@ -20,7 +22,7 @@ PARTIAL = [
     "orthonormality of the random initial orientations comes from SciPy's Rotation.random (checked, not proved)",
 ]
 ASSUMPTIONS = ["the solver output is unconstrained in the theorems (any vectors); only the code's own post-processing is relied on"]
-JIT_TWIN = ('update', 'utils')   # groups of harness/jittwin.py: the numba-compiled code is run on the same battery and compared
+JIT_TWIN = ('update', 'utils', 'large_update')   # groups of harness/jittwin.py: the numba-compiled code is run on the same battery and compared
 TRUSTED = ["harness/solver.py scenario driver and LSODA recorder"]
 
 
@@ -51,6 +53,9 @@ def run(ctx, res):
     rng = np.random.default_rng(ctx["seed"] + 101)
     # history- and representation-robustness scenarios (see harness/robust.py)
     robust.run(res, np.random.default_rng(ctx["seed"] + 77), ctx, "C01")
+    # far time origins, SI units, reversed intervals, long and uneven partitions, L(t) equal at the sampled times (harness/hard.py)
+    # (regime 1 is left to the main loop below: its orthonormality defect is the recorded finding orthonormal:regime1)
+    hard.run(res, np.random.default_rng(ctx["seed"] + 1101), ctx, "C01", want=("count", "valid"), regimes=(0, 4, 6, 7))
     M = impl._minerals
     n_sc = 24 if not ctx["thorough"] else 168
     res.rule = ("update histories: (phase,fabric) x accepted regime {0,1,4,6,7} x L(t,x) family (incl. non-zero trace, vorticity, time/space "
@@ -78,7 +83,7 @@ def run(ctx, res):
         rep = solver.scenario_json(sc)
         rec_all = impl.Recorder()
         start_As = []
-        with rec_all:
+        with rec_all, (solver.debug_logging() if sc.get("debug_log") else contextlib.nullcontext()):
             for u, (a, b) in enumerate(zip(ts[:-1], ts[1:])):
                 ids = [id(x) for x in m.orientations + m.fractions]
                 copies = [x.copy() for x in m.orientations + m.fractions]
